@@ -179,7 +179,9 @@ func (m *MemTable) GetNextSequenceNumber() uint64 {
 // ProcessWALEntry processes a WAL entry and applies it to the MemTable
 func (m *MemTable) ProcessWALEntry(entry *wal.Entry) error {
 	switch entry.Type {
-	case wal.OpTypePut:
+	case wal.OpTypePut, wal.OpTypeMerge:
+		// A merge entry carries a full value and is applied as a put, as the
+		// replication applier does
 		m.Put(entry.Key, entry.Value, entry.SequenceNumber)
 	case wal.OpTypeDelete:
 		m.Delete(entry.Key, entry.SequenceNumber)
